@@ -17,6 +17,7 @@ from .. import cards, pdfs, rel, yrun
 from ..engine import digest
 from ..ref import ref_apply
 
+HISTORY_SWEEP = True
 ID = "C17"
 PIDS = yrun.PIDS
 G = cards.GRIDS["G6"][0]
